@@ -693,7 +693,9 @@ FAMS = (["los"] * 5 + ["los_sigma"] * 2 + ["nufft"] * 3 + ["gridder"] * 2 + ["va
 
 def case(ck, i):
     rng = ck.rng()
-    fam = pick(rng, FAMS)
+    # families are dealt round-robin over the case index (seed-dependent offset) so that every
+    # family is observed even if only a few dozen cases fit into the budget
+    fam = FAMS[(i * 11 + int(ck.rng(777).integers(0, len(FAMS)))) % len(FAMS)]
     bad = Bad(ck, fam)
     if fam == "los":
         case_los(ck, rng, bad)
